@@ -15,6 +15,7 @@ CLAUSES = {
     "C13.summary.inverse": 5000, "C13.summary.extreme": 100000, "C13.summary.mean": 40000,
     "C13.summary.min_inbreeding": 5000, "C13.psdflag": 3000,
     "C13.factory": 2500, "C13.intact": 20000,
+    "C13.summary.history": 50000,
 }
 RULE = ("seeded class-based genotype matrices: phased (ploidy,n,m) and unphased (n,m) int8 sources of ploidy 1 and 2; n in 1..40 "
         "(plus n=49/98/103 where 1/(ploidy*n) rounds), m in 1..60 (skewed small, m=1 included); contents random / rare alleles / "
@@ -22,7 +23,10 @@ RULE = ("seeded class-based genotype matrices: phased (ploidy,n,m) and unphased 
         "duplicate names, grouped or not; every case drives all four estimators with their own argument class (reference "
         "frequencies None | scalar | vector inside (0,1) | vector with exact 0/1 entries; marker weights None | scalar incl. 0 | "
         "vector with zeros | integer vector | all zero | 1e-3..1e3 spread), a random permutation and a random sub-selection, both "
-        "output formats, and (every 4th case) the factory classes.  Non-trivial: n >= 2 and m >= 2; distinct = digest of the raw "
+        "output formats, and (every 4th case) the factory classes.  History family: a live, invertible coancestry object (n 2..8, m > n) is "
+        "queried for every view and summary, then 3-7 random steps of reorder_taxa (non-identity) / sort_taxa / group_taxa / "
+        "remove_taxa / select_taxa (continuing on the result) / mat assignment (same shape: permuted, scaled+ridge, fresh Gram) / no-op, "
+        "with every view and summary re-judged against the CURRENT mat after each step.  Non-trivial: n >= 2 and m >= 2; distinct = digest of the raw "
         "allele array, labels and all arguments.")
 ASSUME = [
     "molecular coancestry of an individual with itself draws the two alleles independently (with replacement): homozygote 2, "
@@ -39,6 +43,9 @@ ASSUME = [
     "beyond 1e-6 of the largest in either direction)",
     "argument arrays are float64 or integer typed (a float32 frequency vector makes the library evaluate the scaling constant in "
     "single precision; that is the precision the caller supplied and is not driven)",
+    "history clause: the in-place operations themselves are not judged (C03); only that views/summaries describe the current "
+    "mat.  append/incorp/insert on square matrices (FIXME-marked, NaN-filled blocks), apply_jitter (global numpy stream) and "
+    "element writes into the array returned by .mat are not driven",
     "numpy.linalg.eigvalsh / solve and long-double accumulation are correct (trusted base)",
 ]
 TRUSTED = ["pbmon/oracle/relmat.py"]
@@ -235,28 +242,45 @@ def judge_matrix(ctx, est, cm, src, icls, coords, wit):
         if got is not None:  # group index metadata, when carried, must be the source's
             ctx.check("C13.labels", same_labels(got, src["meta_now"][f]), fsite, "%s == source %s" % (f, f), lcls,
                       witness=dict(wit, got=got, source=src["meta_now"][f]), coords=coords)
+    judge_readonly(ctx, cm, G, src["pair"], src["axis"], coords, wit)
+    return G
+
+
+def judge_readonly(ctx, cm, G, pair, axis, coords, wit, state=None):
+    """Views, element access, summaries, PSD flag of a live object against direct evaluation on ``G`` (a copy of its
+    CURRENT ``mat``).  With ``state`` (history mode) every evaluation counts under C13.summary.history and the finding
+    key's input class is the state of the object ("after in-place taxa reordering", ...), the site the summary method."""
+    def cl(name):
+        return "C13.summary.history" if state else name
+
+    def ic(x):
+        return state if state else x
+    n = G.shape[0]
+    finite = bool(numpy.all(numpy.isfinite(G)))
+    scale = float(numpy.abs(G).max()) if G.size and finite else 0.0
+    w = numpy.linalg.eigvalsh(0.5 * (G + G.T)) if finite and n else None
     # -- kinship view = exactly half the coancestry view
-    ok, views = returns(ctx, defsite(cm, "mat_asformat"), "both formats", coords,
+    ok, views = returns(ctx, defsite(cm, "mat_asformat"), ic("both formats"), coords,
                         lambda: (cm.mat_asformat("coancestry"), cm.mat_asformat("kinship")), wit)
     if ok:
         co, ki = views
-        ctx.check("C13.kinship", isinstance(co, numpy.ndarray) and numpy.array_equal(co, G, equal_nan=True),
-                  defsite(cm, "mat_asformat"), "coancestry view == mat", "coancestry", witness=dict(wit, mat=G, view=co), coords=coords)
-        ctx.check("C13.kinship", isinstance(ki, numpy.ndarray) and numpy.array_equal(ki, 0.5 * G, equal_nan=True),
-                  defsite(cm, "mat_asformat"), "kinship view == 0.5 * coancestry view (exact)", "kinship",
+        ctx.check(cl("C13.kinship"), isinstance(co, numpy.ndarray) and numpy.array_equal(co, G, equal_nan=True),
+                  defsite(cm, "mat_asformat"), "coancestry view == mat", ic("coancestry"), witness=dict(wit, mat=G, view=co), coords=coords)
+        ctx.check(cl("C13.kinship"), isinstance(ki, numpy.ndarray) and numpy.array_equal(ki, 0.5 * G, equal_nan=True),
+                  defsite(cm, "mat_asformat"), "kinship view == 0.5 * coancestry view (exact)", ic("kinship"),
                   witness=dict(wit, mat=G, view=ki), coords=coords)
-    i, j = src["pair"]
+    i, j = pair
     if n:
         i %= n; j %= n
-        ok, v = returns(ctx, defsite(cm, "kinship"), "element access", coords, lambda: (cm.coancestry(i, j), cm.kinship(i, j)), wit)
+        ok, v = returns(ctx, defsite(cm, "kinship"), ic("element access"), coords, lambda: (cm.coancestry(i, j), cm.kinship(i, j)), wit)
         if ok:
-            ctx.check("C13.kinship", v[0] == G[i, j] or (v[0] != v[0] and G[i, j] != G[i, j]), defsite(cm, "coancestry"),
-                      "coancestry(i,j) == mat[i,j]", "element access", witness=dict(wit, i=i, j=j, got=v[0], mat=G), coords=coords)
-            ctx.check("C13.kinship", v[1] == 0.5 * G[i, j] or (v[1] != v[1] and G[i, j] != G[i, j]), defsite(cm, "kinship"),
-                      "kinship(i,j) == 0.5 * coancestry(i,j) (exact)", "element access",
+            ctx.check(cl("C13.kinship"), v[0] == G[i, j] or (v[0] != v[0] and G[i, j] != G[i, j]), defsite(cm, "coancestry"),
+                      "coancestry(i,j) == mat[i,j]", ic("element access"), witness=dict(wit, i=i, j=j, got=v[0], mat=G), coords=coords)
+            ctx.check(cl("C13.kinship"), v[1] == 0.5 * G[i, j] or (v[1] != v[1] and G[i, j] != G[i, j]), defsite(cm, "kinship"),
+                      "kinship(i,j) == 0.5 * coancestry(i,j) (exact)", ic("element access"),
                       witness=dict(wit, i=i, j=j, got=v[1], mat=G), coords=coords)
     if not finite:
-        return G
+        return
     # -- summaries against direct evaluation on the matrix
     flat = G.ravel().tolist()
     for fmt in FORMATS:
@@ -266,32 +290,32 @@ def judge_matrix(ctx, est, cm, src, icls, coords, wit):
         # extreme values
         for name, ref in (("max", max(kflat)), ("min", min(kflat)), ("max_inbreeding", max(h * G[a, a] for a in range(n)))):
             site = defsite(cm, name)
-            ok, got = returns(ctx, site, fmt, coords, lambda: getattr(cm, name)(format=fmt), wit)
+            ok, got = returns(ctx, site, ic(fmt), coords, lambda: getattr(cm, name)(format=fmt), wit)
             if ok:
-                ctx.check("C13.summary.extreme", numpy.ndim(got) == 0 and float(got) == ref, site, "== direct evaluation on mat (exact)",
-                          fmt, witness=dict(wit, mat=G, got=got, expected=ref), coords=coords)
-        ax = src["axis"]
+                ctx.check(cl("C13.summary.extreme"), numpy.ndim(got) == 0 and float(got) == ref, site, "== direct evaluation on mat (exact)",
+                          ic(fmt), witness=dict(wit, mat=G, got=got, expected=ref), coords=coords)
+        ax = axis
         for name, ref in (("max", K.max(axis=ax)), ("min", K.min(axis=ax))):
             site = defsite(cm, name)
-            ok, got = returns(ctx, site, fmt + "/axis", coords, lambda: getattr(cm, name)(format=fmt, axis=ax), wit)
+            ok, got = returns(ctx, site, ic(fmt + "/axis"), coords, lambda: getattr(cm, name)(format=fmt, axis=ax), wit)
             if ok:
                 refl = [max(col) if name == "max" else min(col) for col in (K.T.tolist() if ax == 0 else K.tolist())]
-                ctx.check("C13.summary.extreme", numpy.shape(got) == (n,) and numpy.asarray(got).tolist() == refl, site,
-                          "== direct evaluation on mat (exact)", fmt + "/axis", witness=dict(wit, mat=G, axis=ax, got=got, expected=refl),
+                ctx.check(cl("C13.summary.extreme"), numpy.shape(got) == (n,) and numpy.asarray(got).tolist() == refl, site,
+                          "== direct evaluation on mat (exact)", ic(fmt + "/axis"), witness=dict(wit, mat=G, axis=ax, got=got, expected=refl),
                           coords=coords)
         # mean
         site = defsite(cm, "mean")
         ref = math.fsum(kflat) / (n * n)
-        ok, got = returns(ctx, site, fmt, coords, lambda: cm.mean(format=fmt), wit)
+        ok, got = returns(ctx, site, ic(fmt), coords, lambda: cm.mean(format=fmt), wit)
         if ok:
             err = abs(float(got) - ref) if numpy.ndim(got) == 0 else float("inf")
             ctx.maxnote("mean error / tolerance", err / O.tol(h * scale))
-            ctx.check("C13.summary.mean", err <= O.tol(h * scale), site, "== sum(mat)/n^2", fmt,
+            ctx.check(cl("C13.summary.mean"), err <= O.tol(h * scale), site, "== sum(mat)/n^2", ic(fmt),
                       witness=dict(wit, mat=G, got=got, expected=ref), coords=coords)
-        ok, got = returns(ctx, site, fmt + "/axis", coords, lambda: cm.mean(format=fmt, axis=ax), wit)
+        ok, got = returns(ctx, site, ic(fmt + "/axis"), coords, lambda: cm.mean(format=fmt, axis=ax), wit)
         if ok:
             refl = [math.fsum(col) / n for col in (K.T.tolist() if ax == 0 else K.tolist())]
-            ctx.check("C13.summary.mean", O.maxerr(got, refl) <= O.tol(h * scale), site, "== sum(mat)/n^2", fmt + "/axis",
+            ctx.check(cl("C13.summary.mean"), O.maxerr(got, refl) <= O.tol(h * scale), site, "== sum(mat)/n^2", ic(fmt + "/axis"),
                       witness=dict(wit, mat=G, axis=ax, got=got, expected=refl), coords=coords)
         # inverse and minimum attainable inbreeding
         invertible = w.min() > 0 and w.max() / w.min() <= 1e6
@@ -306,7 +330,7 @@ def judge_matrix(ctx, est, cm, src, icls, coords, wit):
         cond = float(w.max() / w.min())
         Ks = 0.5 * (K + K.T)
         site = defsite(cm, "inverse")
-        ok, got = returns(ctx, site, fmt, coords, lambda: cm.inverse(format=fmt), wit)
+        ok, got = returns(ctx, site, ic(fmt), coords, lambda: cm.inverse(format=fmt), wit)
         if ok:
             ref = numpy.linalg.solve(Ks.astype(O.LD).astype(float), numpy.eye(n))
             # the defining relation, judged on the residual: K @ got == I
@@ -315,10 +339,10 @@ def judge_matrix(ctx, est, cm, src, icls, coords, wit):
             err = O.maxerr(got, ref) if good else float("inf")
             lim = 1e-9 * cond * max(1.0, float(numpy.abs(ref).max()))  # conditioning enters the attainable accuracy
             ctx.maxnote("inverse residual", res if res < float("inf") else 0.0)
-            ctx.check("C13.summary.inverse", res <= 1e-9 * cond + 1e-12 and err <= lim + 1e-12, site, "mat @ inverse == I", fmt,
+            ctx.check(cl("C13.summary.inverse"), res <= 1e-9 * cond + 1e-12 and err <= lim + 1e-12, site, "mat @ inverse == I", ic(fmt),
                       witness=dict(wit, mat=G, got=got, residual=res, err=err, cond=cond), coords=coords)
         site = defsite(cm, "min_inbreeding")
-        ok, got = returns(ctx, site, fmt, coords, lambda: cm.min_inbreeding(format=fmt), wit)
+        ok, got = returns(ctx, site, ic(fmt), coords, lambda: cm.min_inbreeding(format=fmt), wit)
         if ok:
             # minimum of x'Kx subject to sum(x) = 1, from the KKT system (not from the closed form)
             kkt = numpy.zeros((n + 1, n + 1)); kkt[:n, :n] = 2 * Ks; kkt[:n, n] = 1.0; kkt[n, :n] = 1.0
@@ -328,20 +352,19 @@ def judge_matrix(ctx, est, cm, src, icls, coords, wit):
             err = abs(float(got) - ref) if numpy.ndim(got) == 0 else float("inf")
             lim = 1e-9 * cond * max(abs(ref), h * scale) + 1e-12
             ctx.maxnote("min_inbreeding error / tolerance", err / lim)
-            ctx.check("C13.summary.min_inbreeding", err <= lim, site, "== min x'Gx subject to sum(x)=1", fmt,
+            ctx.check(cl("C13.summary.min_inbreeding"), err <= lim, site, "== min x'Gx subject to sum(x)=1", ic(fmt),
                       witness=dict(wit, mat=G, got=got, expected=ref, cond=cond), coords=coords)
     # -- PSD flag where it does not depend on a tolerance choice
     s = float(numpy.abs(w).max())
     if s > 0 and abs(w.min()) > 1e-6 * s:
         site = defsite(cm, "is_positive_semidefinite")
-        ok, got = returns(ctx, site, "clear-cut spectrum", coords, lambda: cm.is_positive_semidefinite(), wit)
+        ok, got = returns(ctx, site, ic("clear-cut spectrum"), coords, lambda: cm.is_positive_semidefinite(), wit)
         if ok:
-            ctx.check("C13.psdflag", bool(got) == bool(w.min() > 0), site, "flag == (smallest eigenvalue >= 0)", "clear-cut spectrum",
+            ctx.check(cl("C13.psdflag"), bool(got) == bool(w.min() > 0), site, "flag == (smallest eigenvalue >= 0)", ic("clear-cut spectrum"),
                       witness=dict(wit, mat=G, got=got, eigmin=float(w.min())), coords=coords)
     # -- read-only calls left the matrix alone
-    ctx.check("C13.intact", numpy.array_equal(cm.mat, G, equal_nan=True), "DenseCoancestryMatrix",
-              "mat unchanged by views and summaries", "after read-only calls", witness=dict(wit, before=G, after=cm.mat), coords=coords)
-    return G
+    ctx.check(cl("C13.intact"), numpy.array_equal(cm.mat, G, equal_nan=True), "DenseCoancestryMatrix",
+              "mat unchanged by views and summaries", ic("after read-only calls"), witness=dict(wit, before=G, after=cm.mat), coords=coords)
 
 
 # ------------------------------------------------------------------ one case
@@ -488,13 +511,106 @@ def one_case(ctx, c):
                           witness=dict(wit, got=getattr(cf, "mat", repr(cf)), expected=G), coords=coords)
 
 
-QUICK_TOTAL, THOROUGH_TOTAL = 12000, 320000
+
+# ------------------------------------------------------------------ summary calls along an operation history
+HIST_OPS = ["reorder_taxa", "reorder_taxa", "sort_taxa", "group_taxa", "remove_taxa", "select_taxa", "assign mat", "assign mat", "no-op"]
+STATE_OF = {"reorder_taxa": "after in-place taxa reordering", "sort_taxa": "after in-place taxa reordering",
+            "group_taxa": "after in-place taxa reordering", "remove_taxa": "after in-place taxa removal",
+            "select_taxa": "on a select_taxa result object", "assign mat": "after mat assignment",
+            "no-op": None}
+
+
+def case_history(ctx, c):
+    """A live coancestry object is queried (all views and summaries), changed through the public in-place API, and queried
+    again; after every step every answer must describe the object's CURRENT ``mat``.  Whether the operation itself
+    permuted/removed the right rows is C03's business: the reference is always recomputed from ``cm.mat`` as it now is."""
+    g = ctx.rng("hist", c)
+    coords = [c, "hist"]
+    ploidy = int(g.choice([1, 2], p=[0.3, 0.7])); phased = bool(g.random() < 0.5)
+    n = int(g.integers(2, 9)); m = int(g.integers(n + 2, 41))
+    A = (g.random((ploidy, n, m)) < g.uniform(0.15, 0.85, m)[None, None, :]).astype(numpy.int64)
+    lab = str(g.choice(["named+grp", "named+grp", "named", "grp-only", "none"]))
+    taxa = numpy.array(["t%03d" % i for i in g.permutation(n)], dtype=object) if lab in ("named", "named+grp") else None
+    grp = g.integers(0, 3, n).astype("int64") if lab in ("named+grp", "grp-only") else None
+    gm = make_gmat(A, phased, ploidy, taxa, grp)
+    est = str(g.choice(["molecular", "vanraden", "yang", "gweighted"]))
+    if est == "molecular":
+        kwargs = {}
+    elif est == "gweighted":
+        kwargs = {"mkrwt": g.uniform(0.2, 2.0, m), "afreq": g.uniform(0.1, 0.9, m)}
+    else:
+        kwargs = {"p_anc": g.uniform(0.1, 0.9, m)}
+    Cls = classes()[est][0]
+    nsteps = int(g.integers(3, 8))
+    ops = [str(g.choice(HIST_OPS)) for _ in range(nsteps)]
+    ctx.case("history/%s/%s" % (est, lab), A, phased, taxa, grp, repr(sorted((k, v.tolist()) for k, v in kwargs.items())), ops)
+    if c % 101 == 0:
+        ctx.sample({"case": c, "family": "history", "estimator": est, "n": n, "m": m, "labels": lab, "operations": ops})
+    wit = {"estimator": est, "source_mat": numpy.array(gm.mat, copy=True), "ploidy": ploidy, "arguments": kwargs, "history": []}
+    ok, cm = returns(ctx, "%s.from_gmat" % Cls.__name__, "history set-up", coords, lambda: Cls.from_gmat(gm, **copy_kwargs(kwargs)), wit)
+    if not ok:
+        return
+    pair = (int(g.integers(0, 1 << 30)), int(g.integers(0, 1 << 30)))
+    state = "on a fresh object"
+    for step in range(nsteps + 1):
+        G = numpy.array(cm.mat, dtype=float, copy=True)
+        judge_readonly(ctx, cm, G, pair, int(g.integers(0, 2)), coords, dict(wit, history=list(wit["history"]), state=state), state=state)
+        if step == nsteps:
+            break
+        op = ops[step]
+        nn = G.shape[0]
+        detail = None
+        try:
+            if op == "reorder_taxa":
+                if nn < 2:
+                    op = "no-op"
+                else:
+                    perm = g.permutation(nn)
+                    while numpy.array_equal(perm, numpy.arange(nn)):
+                        perm = g.permutation(nn)
+                    detail = perm.tolist(); cm.reorder_taxa(perm)
+            elif op == "sort_taxa":
+                cm.sort_taxa()
+            elif op == "group_taxa":
+                cm.group_taxa()
+            elif op == "remove_taxa":
+                if nn < 3:
+                    op = "no-op"
+                else:
+                    detail = int(g.integers(0, nn)); cm.remove_taxa(detail)
+            elif op == "select_taxa":
+                k = int(g.integers(2, nn + 1)) if nn >= 2 else nn
+                idx = g.permutation(nn)[:k]
+                detail = idx.tolist(); cm = cm.select_taxa(idx)
+            elif op == "assign mat":
+                mode = int(g.integers(0, 3)); detail = ["permuted", "scaled + ridge", "fresh Gram matrix"][mode]
+                if mode == 0 and nn >= 2:
+                    perm = numpy.roll(numpy.arange(nn), 1); new = numpy.ascontiguousarray(G[perm][:, perm])
+                elif mode == 1:
+                    new = 1.5 * G + numpy.diag(g.uniform(0.1, 1.0, nn))
+                else:
+                    B = g.normal(size=(nn, nn + 3)); new = B @ B.T / (nn + 3)
+                cm.mat = new
+        except Exception as e:  # the operation is not this property's subject (policy 2.1: state clauses)
+            ctx.raised("history operation %s" % op, e)
+            wit["history"].append([op, detail, "raised %s" % type(e).__name__])
+            continue
+        wit["history"].append([op, detail])
+        ctx.sumnote("history steps: %s" % op)
+        if not numpy.array_equal(cm.mat, G):
+            ctx.sumnote("history steps that changed mat")
+        if op != "no-op":  # a repeated query keeps the class of the last change
+            state = STATE_OF[op]
+
+
+FAMILIES = {"rel": (one_case, 10000, 300000), "hist": (case_history, 1500, 40000)}
 
 
 def run_shard(ctx):
-    for c in ctx.case_ids(QUICK_TOTAL, THOROUGH_TOTAL):
-        one_case(ctx, c)
+    for name, (fn, q, t) in FAMILIES.items():
+        for c in ctx.case_ids(q, t):
+            fn(ctx, c)
 
 
 def replay(ctx, coords):
-    one_case(ctx, int(coords[0]))
+    FAMILIES[coords[1]][0](ctx, int(coords[0]))
